@@ -1,6 +1,7 @@
 import Agd.Tie.TrC07
 import Agd.Lemmas.Pools
 import Agd.Lemmas.PoolCtx
+import Agd.Model.PoolRelease
 import Agd.Tie.C07
 /-!
 # C07 — concurrent clients never see each other's answers, policies or identities
@@ -786,6 +787,30 @@ example :
     let s4 := newMsg (dispose (clone s1 0 1).1 1) 2 3 [⟨2, 0, 2, [0, 41]⟩, ⟨6, 2, 1, [9]⟩]
     view (clone s4 2 3).1 0 = view s4 0 := by decide
 
+/-- double_release_counterexample (round 4): what the handle table (`Disc`: released at most once) stands
+for.  A response is released by two parties (the handler stack on an error path and the server; `ServerBase`
+and the DoH handler): the second release finds the message through its own pointer (`kept`) and gives the
+same address buffer to the pool again.  The clones made for the next two clients are then built in the same
+storage: client A's message holds client B's address, although every later operation is disciplined. -/
+theorem double_release_counterexample :
+    let s1 := newMsg St.init 0 16 [⟨1, 0, 16, List.replicate 16 7⟩]
+    let kept := s1.live 0
+    let s2 := dispose s1 0
+    let s3 := dispose { s2 with live := setLive s2.live 0 kept } 0
+    let s4 := newMsg (newMsg s3 1 16 [⟨1, 0, 16, List.replicate 16 1⟩]) 2 16 [⟨1, 0, 16, List.replicate 16 2⟩]
+    let s5 := (clone s4 1 11).1
+    let s6 := (clone s5 2 12).1
+    s3.pool.length = 2 ∧ view s5 11 = view s4 1 ∧ view s6 11 ≠ view s5 11 ∧ view s6 11 = view s4 2 ∧
+      anyAlias s6 20 = true := by decide
+
+/-- Released once, the same history is fine. -/
+example :
+    let s2 := dispose (newMsg St.init 0 16 [⟨1, 0, 16, List.replicate 16 7⟩]) 0
+    let s4 := newMsg (newMsg s2 1 16 [⟨1, 0, 16, List.replicate 16 1⟩]) 2 16 [⟨1, 0, 16, List.replicate 16 2⟩]
+    let s6 := (clone (clone s4 1 11).1 2 12).1
+    view s6 11 = view s4 1 ∧ view s6 12 = view s4 2 ∧ anyAlias s6 20 = false := by decide
+
+#print axioms double_release_counterexample
 #print axioms inv_init
 #print axioms pool_inv
 #print axioms clone_equal
@@ -994,6 +1019,60 @@ example :
 #print axioms context_double_put_counterexample
 
 end Agd.PoolCtx
+
+/-! # Round 4: the servers' side of the ownership discipline, and the echoed question
+
+`Agd/Model/PoolRelease.lean`: the order of handler, write and release on every transport, tied to the code by
+`serverbase_dispose_cases_src`, `serve_msg_release_order_src`, `doh_release_order_src`, `doq_release_order_src`
+and run by the wire campaign (the production servers behind `dnssvc.New`). -/
+namespace Agd.Release
+
+/-- server_release_disciplined: on every transport the response is written before it is released, it is
+released at most once, and nothing happens to it after the release — the hypothesis (`Agd.Pools.Disc`) under
+which `isolation`, `no_cap_alias` and `interleaving_irrelevant` speak about responses. -/
+theorem server_release_disciplined (t : Transport) :
+    Disciplined (serveCode t) = true ∧ ((serveCode t).filter (· == .release)).length ≤ 1 ∧
+    (serveCode t).filter (· != .release) = [.handler, .write] := by
+  cases t <;> decide
+
+/-- Non-vacuity: four transports do release (so the pools are fed by the servers), DNSCrypt does not. -/
+example : serveCode .udp = [.handler, .write, .release] ∧ serveCode .doh = [.handler, .write, .release] ∧
+    serveCode .doq = [.handler, .write, .release] ∧ serveCode .dnscrypt = [.handler, .write] := by decide
+
+/-- What the two Tie facts exclude.  With the `NonWriterResponseWriter` in the first case of
+`ServerBase.dispose`, a DoH / DoQ response is released twice (`Agd.Pools.double_release_counterexample`);
+with the transport's `Dispose` in front of its write, the response is packed after its release. -/
+theorem server_double_release_counterexample :
+    Disciplined (serve [.nonWriter] false .doh) = false ∧
+    ((serve [.nonWriter] false .doq).filter (· == .release)).length = 2 := by decide
+theorem server_release_before_write_counterexample :
+    Disciplined (serve [] true .doh) = false ∧ serve [] true .doq = [.handler, .release, .write] := by decide
+
+/-- response_echoes_class: whatever the class of the question and whether or not the handler fails, the
+question of what the client receives has the class that the client sent (with the `fix:` commit). -/
+theorem response_echoes_class (q : Nat) (fails : Bool) : answeredClass true q fails = q := by
+  unfold answeredClass handle
+  by_cases h : q = classCHAOS
+  · subst h; cases fails <;> decide
+  · have hb : (q == classCHAOS) = false := by simpa using h
+    cases fails <;> simp [hb]
+
+/-- Non-vacuity: a debug request whose upstreams are down, and one that is answered. -/
+example : answeredClass true classCHAOS true = classCHAOS ∧ answeredClass true classCHAOS false = classCHAOS ∧
+    (handle true classCHAOS true).2 = none := by decide
+
+/-- debug_class_old_counterexample: the unchanged tree (no restore): a CHAOS request whose handler returns an
+error is answered with a SERVFAIL whose question has class IN — a response that does not match the
+client's question. -/
+theorem debug_class_old_counterexample : answeredClass false classCHAOS true ≠ classCHAOS := by decide
+
+#print axioms server_release_disciplined
+#print axioms server_double_release_counterexample
+#print axioms server_release_before_write_counterexample
+#print axioms response_echoes_class
+#print axioms debug_class_old_counterexample
+
+end Agd.Release
 #print axioms Agd.Tie.TrC07.translation_complete
 #print axioms Agd.Tie.TrC07.filtering_context_reset
 #print axioms Agd.Tie.TrC07.request_info_reset
